@@ -103,7 +103,8 @@ pub extern "C" fn tsrun_is_array(val: *const TsRunValue) -> bool {
     unsafe { val.as_ref() }
         .map(|v| {
             if let JsValue::Object(obj) = v.value() {
-                matches!(obj.borrow().exotic, ExoticObject::Array { .. })
+                // a handle may survive its context: the object is gone then
+                obj.is_alive() && matches!(obj.borrow().exotic, ExoticObject::Array { .. })
             } else {
                 false
             }
@@ -117,7 +118,8 @@ pub extern "C" fn tsrun_is_function(val: *const TsRunValue) -> bool {
     unsafe { val.as_ref() }
         .map(|v| {
             if let JsValue::Object(obj) = v.value() {
-                matches!(obj.borrow().exotic, ExoticObject::Function(_))
+                // a handle may survive its context: the object is gone then
+                obj.is_alive() && matches!(obj.borrow().exotic, ExoticObject::Function(_))
             } else {
                 false
             }
@@ -556,6 +558,10 @@ pub extern "C" fn tsrun_array_len(arr: *const TsRunValue) -> usize {
     unsafe { arr.as_ref() }
         .and_then(|v| {
             if let JsValue::Object(obj) = v.value() {
+                // a handle may survive its context: the object is gone then
+                if !obj.is_alive() {
+                    return None;
+                }
                 let borrowed = obj.borrow();
                 if let ExoticObject::Array { elements } = &borrowed.exotic {
                     return Some(elements.len());
